@@ -309,6 +309,33 @@ impl ::std::fmt::Display for StabilizerTableau
     }
 }
 
+/// Verification hooks: access to the private row operations
+#[cfg(feature = "verif")]
+impl StabilizerTableau
+{
+    /// Build a tableau from explicit rows (operator bits 0=I 1=Z 2=X 3=Y) and signs
+    pub fn verif_from_rows(rows: &[Vec<u64>], signs: &[bool]) -> Self
+    {
+        let n = rows.len();
+        let mut res = StabilizerTableau::new(n);
+        for i in 0..n
+        {
+            for j in 0..n
+            {
+                res.set_bits(i, j, rows[i][j]);
+            }
+            res.set_sign(i, signs[i]);
+        }
+        res
+    }
+    pub fn verif_get_bits(&self, i: usize, j: usize) -> u64 { self.get_bits(i, j) }
+    pub fn verif_get_sign(&self, i: usize) -> bool { self.get_sign(i) }
+    pub fn verif_swap_rows(&mut self, i0: usize, i1: usize) { self.swap_rows(i0, i1) }
+    pub fn verif_multiply_row(&mut self, i0: usize, i1: usize) { self.multiply_row(i0, i1) }
+    pub fn verif_normalize(&mut self) { self.normalize() }
+    pub fn verif_words(&self) -> (Vec<u64>, Vec<u64>) { (self.xz.clone(), self.signs.clone()) }
+}
+
 #[cfg(test)]
 mod tests
 {
